@@ -578,7 +578,7 @@ def cond_locals(body, sb, depth=2):
         roots = set(vis)
         for l in list(roots):
             dl = body.defs().get(l, [])
-            if len(dl) > 1 and all(d_[0] == "assign" and d_[3]["rv"]["k"] == "use" and "const" in d_[3]["rv"]["op"] for d_ in dl):
+            if len(dl) > 1 and all(d_[0] == "assign" for d_ in dl) and any(d_[3]["rv"]["k"] == "use" and "const" in d_[3]["rv"]["op"] for d_ in dl):
                 for d_ in dl:
                     for sb2, t2 in body.direct_control_deps(d_[1]):
                         if sb2 != sb:
